@@ -346,12 +346,20 @@ def run(tier, seed, t0):
         prom_int.scen_ageing(e3, "C07", "c07")
     except _e3.ENC_ERRORS as ex:
         e3.error("c07_summary_across_quiet_time", "MIR->SMT integration encoding of the Prometheus recorder", ex)
+    # a summary's cumulative _count is the number of samples ever folded in, in whatever order a drain hands them over
+    # (clear_with yields the newest storage block first, so timestamps within one drain are not monotone)
+    try:
+        import c15
+        for k, batch, nb in ([(3, True, 2)] if tier == "quick" else [(3, True, 2), (4, True, 3), (3, False, 2)]):
+            c15.rolling_window(e3, k, batch, nb, ordered=False)
+    except _e3.ENC_ERRORS as ex:
+        e3.error("c15_window_anyorder", "MIR->SMT encoding of Distribution::record_samples / RollingSummary", ex)
     finish("C07", tier, seed, list(e3.res.obligations), t0, ASSUME + ["E3 callee models: " + ", ".join(sorted(e3.models))], sorted(e3.functions),
            explanation="MIR->SMT encoding of record / get_recent_metrics / run_upkeep histories of the Prometheus recorder against sample conservation")
 
 
 def replay(path):
     import replay_e3
-    status, out = replay_e3.run("c08" if "/C08/" in path else ("c15" if "summary_across" in path else "c07"), path)
+    status, out = replay_e3.run("c08" if "/C08/" in path else ("c15" if ("summary_across" in path or "/C15/" in path) else "c07"), path)
     print(status, out)
     return 1 if status == "reproduced" else 0
